@@ -38,12 +38,22 @@ theorem closed_blocks_outgoing {s : St} {c r : Nat} {ra : Ra} (hs : Reachable s)
   have ht := (closed_iff hs hg).1 h0
   simp [step, stepSend, hc, hg, ht]
 
-/-- … and from then on ordinary transfers flow -/
+/-- … and from then on ordinary transfers flow — as far as the genesis bridge is concerned: the ICS4
+    wrapper lets every transfer through, and ibc core sends it unless the channel's client is not active.
+    The one way the model (and the hub) gets there is a hard fork of the rollapp (`MsgRollappFraudProposal`),
+    which freezes the canonical client until the rollapp's next state update (`fork_closes_until_update`,
+    `update_reopens`, Props/C10Fork). -/
 theorem open_flows {s : St} {c r : Nat} {ra : Ra} (hs : Reachable s) (hc : CanonChan s c r)
-    (hg : getRa s r = some ra) (h1 : ra.nOpen ≠ 0) : step s (.send c) = (s, .ok) := by
+    (hg : getRa s r = some ra) (h1 : ra.nOpen ≠ 0) :
+    step s (.send c) = (s, if ra.frozen then .err else .ok) := by
   obtain ⟨c', hc⟩ := hc
   have ht : ra.tph ≠ 0 := fun h => h1 ((closed_iff hs hg).2 h)
-  simp [step, stepSend, hc, hg, ht]
+  cases hf : ra.frozen <;> simp [step, stepSend, hc, hg, ht, hf]
+
+/-- … in particular they do flow while the canonical client is not frozen -/
+theorem open_flows_active {s : St} {c r : Nat} {ra : Ra} (hs : Reachable s) (hc : CanonChan s c r)
+    (hg : getRa s r = some ra) (h1 : ra.nOpen ≠ 0) (hf : ra.frozen = false) : step s (.send c) = (s, .ok) := by
+  rw [open_flows hs hc hg h1, hf]; rfl
 
 -- ------------------------------------------------------------------------------------------------
 /-- **accounts_match** — the hub's account comparison (same length, every registered account found in
@@ -164,13 +174,14 @@ theorem handshake_once {s : St} {r : Nat} {ra : Ra} (hs : Reachable s) (hg : get
 
 /-- … because once it has completed, no packet on the canonical channel (a repeated handshake packet
     included) is handled by the genesis bridge any more: it is passed on and the model state
-    (credits, metadata, proof height, plan) stays as it is. -/
+    (credits, metadata, proof height, plan) stays as it is.  (While a hard fork has the canonical client
+    frozen ibc core refuses the packet message altogether.) -/
 theorem handshake_once_no_second_credit {s : St} {c r : Nat} {ra : Ra} (hs : Reachable s) (hc : CanonChan s c r)
     (hg : getRa s r = some ra) (h1 : ra.nOpen ≠ 0) (ph : Nat) (p : Pkt) :
-    step s (.recv c ph p) = (s, lowerRollapp p) := by
+    step s (.recv c ph p) = (s, if ra.frozen then .err else lowerRollapp p) := by
   obtain ⟨c', hc⟩ := hc
   have ht : ra.tph ≠ 0 := fun h => h1 ((closed_iff hs hg).2 h)
-  simp [step, stepRecv, hc, hg, ht]
+  cases hf : ra.frozen <;> simp [step, stepRecv, hc, hg, ht, hf]
 
 -- ------------------------------------------------------------------------------------------------
 theorem sealed_eta (g : GInfo) (h : g.sealed = true) : ({ g with sealed := true } : GInfo) = g := by
@@ -331,6 +342,38 @@ theorem gi_step (s : St) (op : Op) (r : Nat) (ra : Ra) (hg : getRa s r = some ra
            left; rfl)
   | premd r0 =>
     simp only [step, stepPremd]
+    cases hr0 : getRa s r0 with
+    | none => exact keep
+    | some ra0 =>
+      simp only
+      repeat' split
+      all_goals first
+        | exact keep
+        | (refine upd r0 ra0 _ hr0 rfl ?_
+           intro hr
+           subst hr
+           rw [hg] at hr0
+           cases hr0
+           left; rfl)
+  | update r0 n =>
+    simp only [step, stepUpdate]
+    cases hr0 : getRa s r0 with
+    | none => exact keep
+    | some ra0 =>
+      simp only
+      repeat' split
+      all_goals first
+        | exact keep
+        | (refine upd r0 ra0 _ hr0 rfl ?_
+           intro hr
+           subst hr
+           rw [hg] at hr0
+           cases hr0
+           left; rfl)
+  | fork r0 gov h =>
+    simp only [step, stepFork]
+    split
+    · exact keep
     cases hr0 : getRa s r0 with
     | none => exact keep
     | some ra0 =>
